@@ -165,9 +165,11 @@ LoopScope == {CaseOf("C07/loopscope/" \o sh \o "/" \o F \o "-" \o G \o "/" \o a 
               : sh \in LoopShapes, F \in Forms, G \in {"short", "callmulti"}, a \in Afters, pl \in Places}
 
 \* what is checked where a function body ENDS, in every spelling of the text (round 15: a blank or comment line in front of the closing brace switched the checks off)
-EndKinds == {"none", "only-in-if", "then-stmt", "two-for-one", "none-for-one", "string-for-int", "ok", "ok-void", "value-in-void"}
+EndKinds == {"empty", "empty-two", "none", "only-in-if", "then-stmt", "two-for-one", "none-for-one", "string-for-int", "ok", "ok-void", "value-in-void"}
 EndBody(kd) ==
   CASE kd = "none" -> <<Func("f", <<>>, <<"int">>, <<Print1(I("1"))>>)>>
+    [] kd = "empty" -> <<Func("f", <<>>, <<"int">>, <<>>)>>               \* round 16: an empty body took a fast path that skipped the end-of-body checks
+    [] kd = "empty-two" -> <<Func("f", <<Param("a", "int")>>, <<"int", "string">>, <<>>)>>
     [] kd = "only-in-if" -> <<Func("f", <<>>, <<"int">>, <<If1(BoolL(TRUE), <<RetS(<<I("1")>>)>>)>>)>>
     [] kd = "then-stmt" -> <<Func("f", <<>>, <<"int">>, <<RetS(<<I("1")>>), Print1(I("2"))>>)>>
     [] kd = "two-for-one" -> <<Func("f", <<>>, <<"int">>, <<Print1(I("1")), RetS(<<I("1"), I("2")>>)>>)>>
